@@ -35,6 +35,10 @@
 (*                and samp = the sampler in force, classified by behaviour *)
 (*                ("sm"|"gs"|"none"); PIT: the four getters                *)
 (*   optv         id of the complete per-module option / sampler vector    *)
+(*   glink        id of the autograd link of the stored coefficients: per   *)
+(*                quantiser / combiner, requires_grad of theta_alpha and   *)
+(*                the gradient of a fixed functional of it w.r.t. alpha;   *)
+(*                glrg = aggregate "T"|"F"|"mixed"|"-"                     *)
 (*   copy_ok      the model can be deep-copied (strict copy.deepcopy that   *)
 (*                only detaches non-leaf tensors)                          *)
 (*   dkeys        id of {module name -> PUBLIC keys of vars(module)}       *)
@@ -51,6 +55,11 @@
 (*   neutral      an observer call changed a fingerprint component         *)
 (*   options      an observer call changed an option (as stored in any     *)
 (*                quantiser / combiner / PIT layer) or the sampler in force*)
+(*   gradlink     an observer call changed the autograd link of the stored *)
+(*                coefficients; or a cost read (requires_grad, gradient    *)
+(*                w.r.t. every parameter) differs from the same read on    *)
+(*                the gradient twin  tw = [has, a, rg, g]  (an object that  *)
+(*                made the non-observer calls and the cost reads only)     *)
 (*   usable       after an observer call the model can no longer be        *)
 (*                deep-copied, or vars() of a module has another public    *)
 (*                key set than before the call                             *)
@@ -106,7 +115,8 @@ OutF   == {"out", "oute"}
 CostF  == {"cost", "costfin"}
 UseF   == {"copy_ok", "dkeys"}
 OptF   == {"optv"}
-AllF   == ParamF \cup BufF \cup ModeF \cup OutF \cup CostF \cup UseF \cup OptF \cup {"rg", "theta", "thv", "sum"}
+GradF  == {"glink"}
+AllF   == ParamF \cup BufF \cup ModeF \cup OutF \cup CostF \cup UseF \cup OptF \cup GradF \cup {"rg", "theta", "thv", "sum"}
 
 Changed(p, o) == {f \in AllF : p[f] # o[f]}
 
@@ -149,7 +159,7 @@ F35Sig(kind, a, p, o) == kind = "mps" /\ a.a = "export" /\ p.theta = "soft" /\ o
 
 ActStr(a) == IF a.a = "export" THEN (IF a.nobn THEN "export(add_bn=False)" ELSE "export()")
              ELSE IF a.a = "getcost" THEN "get_cost(" \o a.n \o ")"
-             ELSE IF a.a = "setcs" THEN "cost_specification:=" \o a.c
+             ELSE IF a.a = "setcs" THEN "cost_specification:=" \o a.c \o (IF a.how = "f" THEN "(fresh object)" ELSE IF a.how = "i" THEN "(own object, in place)" ELSE "")
              ELSE IF a.a = "mode" THEN (IF a.v THEN "train()" ELSE "eval()")
              ELSE IF a.a = "seedmode" THEN (IF a.v THEN "seed.train()" ELSE "seed.eval()")
              ELSE IF a.a = "upd" THEN "option " \o a.o \o ":=" \o ToString(a.v)
@@ -201,6 +211,10 @@ ObserverVerdict(kind, e, p, where) ==
                   \o (IF "copy_ok" \in bad THEN "the model can no longer be deep-copied; " ELSE "")
                   \o (IF "dkeys" \in bad THEN "vars() of modules changed: new " \o ToString(e.dk.new) \o " removed " \o ToString(e.dk.del)
                       ELSE ""))
+        ELSE IF bad = {"glink"}
+        THEN Viol("C18.gradlink at " \o where \o ": after the observer call the coefficients stored in the model have the same "
+                  \o "values but another autograd link to the architectural parameters (stored theta requires grad: "
+                  \o p.glrg \o " -> " \o o.glrg \o "): cost.backward() no longer reaches them the same way")
         ELSE IF "optv" \in bad
         THEN Viol("C18.options at " \o where \o ": observer call changed the options / the sampler in force: before "
                   \o ToString(p.opt) \o " after " \o ToString(o.opt)
@@ -231,10 +245,29 @@ TaintId(taint, ch) ==
     ELSE IF "F36" \in taint /\ ch \cap F36Fields # {} THEN "F36"
     ELSE "F37"
 
+\* a cost read on the live model: requires_grad and gradient w.r.t. every parameter, against the same read on the
+\* gradient twin (an object that made the same non-observer calls and cost reads, but no other observer call)
+GradTwinVerdict(e, taint, where) ==
+    IF ~e.tw.has \/ e.ret.k # "cost" THEN OK
+    ELSE IF e.ret.rg = e.tw.rg /\ e.ret.g = e.tw.g /\ e.ret.a = e.tw.a THEN OK
+    ELSE IF taint # {} THEN OK          \* (an open known finding upstream is reported where it happens)
+    ELSE IF e.ret.rg # e.tw.rg
+    THEN Viol("C18.gradlink at " \o where \o ": the cost read after the observer calls has requires_grad = " \o ToString(e.ret.rg)
+              \o ", the same read on a twin that made no other observer call has " \o ToString(e.tw.rg))
+    ELSE IF e.ret.g # e.tw.g
+    THEN Viol("C18.gradlink at " \o where \o ": the gradient of the cost w.r.t. the parameters differs from the one on a twin that "
+              \o "made no other observer call")
+    ELSE Viol("C18.cost-fn at " \o where \o ": the cost value read differs from the one read on a twin that made no other observer "
+              \o "call and uses the built-in specification objects")
+
 ErasureVerdict(e, taint, where) ==
     IF ~e.ref.has THEN OK
     ELSE LET ch == Changed(e.ref.obs, e.obs) \cup (IF e.ref.obs.cs # e.obs.cs THEN {"cs"} ELSE {})
          IN IF ch = {} THEN OK
+            ELSE IF e.act.a = "setcs" /\ e.act.how # "s" /\ ch = {"cost"}
+            THEN Viol("C18.setter at " \o where \o ": the costs after cost_specification := "
+                      \o (IF e.act.how = "f" THEN "a freshly constructed specification object" ELSE "the user's specification object completed in place")
+                      \o " differ from the costs with the built-in object of the same contents (" \o e.act.c \o ")")
             ELSE IF taint # {} /\ ch \subseteq TaintExplains(taint)
             THEN Known("known:" \o TaintId(taint, ch) \o ":C18.erasure: after an earlier observer call "
                        \o "the run differs from the run without observer calls (" \o where \o ": " \o ToString(ch) \o ")")
@@ -288,7 +321,10 @@ StepVerdict(kind, hasbn, e, p, taint, where) ==
     IN  IF e.err # "" THEN Viol("C18.raises at " \o where \o ": " \o e.err)
         ELSE IF o.fperr # "" THEN Viol("C18.raises after " \o where \o ": on the model as it is now, " \o o.fperr)
         ELSE IF ~o.costfin THEN Viol("C18.cost at " \o where \o ": a cost value is not finite / negative")
-        ELSE IF IsObserver(a) THEN Worse(ObserverVerdict(kind, e, p, where), PredVerdict(kind, hasbn, e, p, where))
+        ELSE IF IsObserver(a)
+        THEN LET v0 == ObserverVerdict(kind, e, p, where) IN IF Lvl(v0) = 3 THEN v0
+             ELSE LET vg == GradTwinVerdict(e, taint, where) IN IF Lvl(vg) = 3 THEN vg
+             ELSE Worse(v0, PredVerdict(kind, hasbn, e, p, where))
         ELSE LET v1 == SetterVerdict(a, p, o, where) IN IF Lvl(v1) = 3 THEN v1
         ELSE LET v2 == ErasureVerdict(e, taint, where) IN IF Lvl(v2) = 3 THEN v2
         ELSE Worse(v2, PredVerdict(kind, hasbn, e, p, where))
